@@ -29,12 +29,21 @@ def gen_cases(ctx, names, n_cfg, profiles=None, scale=1):
     for name in names:
         for ci, cfg in enumerate(se.grid(name, rng, n_cfg)):
             big = se.BIG_PROFILES if (ci == 0 and name != "SSE2") else []     # SSE-2 tokens cost param_n PRP calls each
+            if name == "SSE2" and ci == 0:
+                big = ["long_list"]      # one list of ~300 postings: counters beyond one byte
             if name == "PiPtr" and ci == 1:
                 big = ["long_list_2byte"]      # pointers of two bytes with ONE pointer per pointer block (B=2, b=1): index 256 ends a block
             for prof in (profiles or (se.PROFILES + big)):
                 db = se.gen_db(name, cfg, rng, prof, scale)
                 c = se.finalize_cfg(name, cfg, db)
                 absent = se.absent_keywords(rng, name, c, db)
+                if prof in se.BIG_PROFILES:
+                    # the keyword with the longest list followed by a counter-like byte: its look-up label must not be one of the
+                    # labels the long list itself occupies
+                    wl = max(db, key=lambda k: len(db[k]))
+                    for extra in (wl + b"\x01", wl + b"\x00"):
+                        if len(extra) <= se.kw_limit(name, c) and extra not in db and extra not in absent:
+                            absent.append(extra)
                 present = list(db)
                 if prof in se.BIG_PROFILES + ["long_list_2byte"] and len(present) > 12:
                     # search a sample: the longest lists and a few others
